@@ -57,6 +57,14 @@ type taskHooks struct {
 	// runPanic[node]: panic at node start.
 	runPanic map[string]bool
 	emits    map[string]int
+	// fired: an injected panic has been raised
+	fired bool
+}
+
+func (h *taskHooks) faultFired() bool {
+	h.mu.Lock()
+	defer h.mu.Unlock()
+	return h.fired
 }
 
 var (
@@ -120,6 +128,9 @@ func dispatch(point string, args ...string) {
 			g.pass()
 		}
 		if p {
+			h.mu.Lock()
+			h.fired = true
+			h.mu.Unlock()
 			panic(fmt.Sprintf("verif: injected fault at start of node %s", node))
 		}
 	case "edge.emit":
@@ -137,6 +148,9 @@ func dispatch(point string, args ...string) {
 			g.pass()
 		}
 		if p {
+			h.mu.Lock()
+			h.fired = true
+			h.mu.Unlock()
 			panic(fmt.Sprintf("verif: injected fault in node %s at message %d", child, k))
 		}
 	}
